@@ -89,6 +89,17 @@ func TransformModuleFilesToModel( //nolint:funlen,gocognit,cyclop
 			continue
 		}
 
+		// Only a file with a module header gets an extension map from the parser. Anything else (a file with
+		// a model header) is not a module, whatever it contains.
+		if typeDefExtensions == nil {
+			transformErrors = multierror.Append(transformErrors, &ModuleTransformationSingleError{
+				Msg:  "file is not a module",
+				File: module.Name,
+			})
+
+			continue
+		}
+
 		for _, typeDef := range mdl.GetTypeDefinitions() {
 			_, extension := typeDefExtensions[typeDef.GetType()]
 			if slices.Contains(types, typeDef.GetType()) && !extension {
